@@ -111,6 +111,10 @@ trait Comp: Sized {
     fn try_clone(&self) -> Option<Self> {
         None
     }
+    /// `dst.clone_from(self)`; false = not cloneable
+    fn clone_into(&self, _dst: &mut Self) -> bool {
+        false
+    }
     fn census(&self, _u: u64) -> String {
         "n/a".into()
     }
@@ -446,6 +450,10 @@ impl<K: KeyKind, E: OnEvictCallback + Clone, S: BuildHasher + Clone> Comp for Ra
             cb: self.cb,
         })
     }
+    fn clone_into(&self, dst: &mut Self) -> bool {
+        in_call(|| dst.c.clone_from(&self.c));
+        true
+    }
     fn census(&self, u: u64) -> String {
         census_of::<K, _>(&self.c, u)
     }
@@ -518,6 +526,10 @@ impl<K: KeyKind, S: BuildHasher + Clone> Comp for SlruComp<K, S> {
         Some(SlruComp {
             c: in_call(|| self.c.clone()),
         })
+    }
+    fn clone_into(&self, dst: &mut Self) -> bool {
+        in_call(|| dst.c.clone_from(&self.c));
+        true
     }
     fn census(&self, u: u64) -> String {
         census_of::<K, _>(&self.c, u)
@@ -798,6 +810,10 @@ impl Comp for TinyComp {
     fn try_clone(&self) -> Option<Self> {
         Some(TinyComp { t: self.t.clone() })
     }
+    fn clone_into(&self, dst: &mut Self) -> bool {
+        dst.t.clone_from(&self.t);
+        true
+    }
     fn env(&self) -> Vec<String> {
         let mut v = vec![tiny_env(&self.t)];
         for k in 0u64..=24 {
@@ -858,6 +874,10 @@ impl<K: KeyKind, S: BuildHasher + Clone> Comp for WtComp<K, S> {
         Some(WtComp {
             c: in_call(|| self.c.clone()),
         })
+    }
+    fn clone_into(&self, dst: &mut Self) -> bool {
+        in_call(|| dst.c.clone_from(&self.c));
+        true
     }
     fn census(&self, u: u64) -> String {
         census_of::<K, _>(&self.c, u)
@@ -983,11 +1003,45 @@ fn drive<C: Comp>(
                                 Ok(None) => writeln!(out, "{} => BAD not cloneable", line).unwrap(),
                                 Ok(Some(c)) => {
                                     let _ = take_drops();
-                                    writeln!(out, "{} => {}", line, c.dump()).unwrap();
+                                    match c.sizes() {
+                                        Some(sz) => writeln!(out, "{} => {} | sz={}", line, c.dump(), sz).unwrap(),
+                                        None => writeln!(out, "{} => {}", line, c.dump()).unwrap(),
+                                    }
                                     if let Some(old) = alt.take() {
                                         drop(old);
                                     }
                                     alt = Some(c);
+                                }
+                            }
+                        }
+                        "clonefrom" => {
+                            // `alt.clone_from(&main)` (the in-place form); without an alt it is a plain clone
+                            let r = catch_unwind(AssertUnwindSafe(|| match alt.as_mut() {
+                                Some(a) => {
+                                    if m.clone_into(a) {
+                                        Some(None)
+                                    } else {
+                                        None
+                                    }
+                                }
+                                None => m.try_clone().map(Some),
+                            }));
+                            match r {
+                                Err(_) => {
+                                    writeln!(out, "{} => PANIC", line).unwrap();
+                                    dead = true;
+                                }
+                                Ok(None) => writeln!(out, "{} => BAD not cloneable", line).unwrap(),
+                                Ok(Some(newalt)) => {
+                                    let _ = take_drops();
+                                    if let Some(c) = newalt {
+                                        alt = Some(c);
+                                    }
+                                    let c = alt.as_ref().unwrap();
+                                    match c.sizes() {
+                                        Some(sz) => writeln!(out, "{} => {} | sz={}", line, c.dump(), sz).unwrap(),
+                                        None => writeln!(out, "{} => {}", line, c.dump()).unwrap(),
+                                    }
                                 }
                             }
                         }
@@ -996,7 +1050,11 @@ fn drive<C: Comp>(
                             Some(a) => {
                                 alt = main.take();
                                 main = Some(a);
-                                writeln!(out, "{} => {}", line, main.as_ref().unwrap().dump()).unwrap();
+                                let mm = main.as_ref().unwrap();
+                                match mm.sizes() {
+                                    Some(sz) => writeln!(out, "{} => {} | sz={}", line, mm.dump(), sz).unwrap(),
+                                    None => writeln!(out, "{} => {}", line, mm.dump()).unwrap(),
+                                }
                             }
                         },
                         "dropalt" => match alt.take() {
